@@ -175,6 +175,37 @@ pub fn c05(cx: &mut Ctx) {
         cx.op(&format!("resp {}", hx(&full)));
         cx.op("canproceed");
     }
+    // the head is the refusal of an Expect: 100-continue request that the caller looked at several times while
+    // it trickled in (what has arrived re-presented on every look), before taking it as the response
+    for (k, looks) in [1usize, 3, 5, 6].iter().enumerate() {
+        for reqv in ["HTTP/1.1", "HTTP/1.0"] {
+            for creq in [false, true] {
+                let mut r = cx.case("polled");
+                let h = Head { version: 1, status: *r.pick(&[403u16, 417, 200, 413]), reason: Some(b"No".to_vec()),
+                               fields: vec![Field { name: b"Connection".to_vec(), pre: b" ".to_vec(), value: b"close".to_vec(), post: vec![] },
+                                            Field { name: b"Content-Length".to_vec(), pre: b" ".to_vec(), value: b"0".to_vec(), post: vec![] },
+                                            Field { name: b"X-K".to_vec(), pre: b" ".to_vec(), value: k.to_string().into_bytes(), post: vec![] }] };
+                let enc = h.enc();
+                cx.meta(&h.meta());
+                let mut hs: Vec<(&str, &[u8])> = vec![("expect", b"100-continue"), ("content-length", b"3")];
+                if creq { hs.insert(0, ("connection", b"close")); }
+                cx.rec.new_flow(&format!("POST {} http://a.test/p {}", reqv, super::hdrs(&hs)));
+                cx.op("proceed"); cx.op("write 4096"); cx.op("proceed");
+                if cx.rec.state() != "await100" { continue; }
+                let first_line = enc.iter().position(|&b| b == b'\n').unwrap() + 1;
+                for i in 0..*looks {
+                    let upto = (first_line + 2 + i * (enc.len() - first_line - 2) / looks.max(&1)).min(enc.len());
+                    cx.op(&format!("read100 {}", hx(&enc[..upto])));
+                    cx.op("keep100");
+                }
+                cx.op("proceed");
+                if cx.rec.state() != "recvResponse" { continue; }
+                for p in [0usize, 5, first_line, enc.len() - 2, enc.len() - 1] { cx.op(&format!("resp {}", hx(&enc[..p]))); }
+                cx.op(&format!("resp {}", hx(&enc)));
+                cx.op("canproceed");
+            }
+        }
+    }
     // the header limit: 128 accepted, 129 and more rejected, raised when the 129th complete line ends
     for extra in [127usize, 128, 129, 130] {
         let mut r = cx.case("limit");
@@ -408,13 +439,19 @@ pub fn c06(cx: &mut Ctx) {
     for status in [200u16, 204, 302, 304, 403, 413] {
         for fr in ["Content-Length: 9\r\n", "Transfer-Encoding: chunked\r\n", "", "Content-Length: 0\r\n", "Content-Length: 9\r\nTransfer-Encoding: chunked\r\n"] {
             for ver in [0u8, 1] {
-                for route in 0..3 {
+                for route in 0..4 {
                     cx.case("refused");
-                    if !to_await100(cx, "POST", "HTTP/1.1", Some(3)) { continue; }
-                    let head = format!("HTTP/1.{} {} X\r\n{}{}\r\n", ver, status, if status == 302 { "Location: /n\r\n" } else { "" }, fr).into_bytes();
+                    // route 3: everything else that closes a connection is there as well (HTTP/1.0 request,
+                    // Connection: close on both sides)
+                    if route == 3 {
+                        cx.rec.new_flow(&format!("POST HTTP/1.0 http://a.test/p {}", super::hdrs(&[("connection", b"close"), ("expect", b"100-continue"), ("content-length", b"3")])));
+                        cx.op("proceed"); cx.op("write 4096"); cx.op("proceed");
+                        if cx.rec.state() != "await100" { continue; }
+                    } else if !to_await100(cx, "POST", "HTTP/1.1", Some(3)) { continue; }
+                    let head = format!("HTTP/1.{} {} X\r\n{}{}{}\r\n", ver, status, if status == 302 { "Location: /n\r\n" } else { "" }, fr, if route == 3 { "Connection: close\r\n" } else { "" }).into_bytes();
                     // route 0: whole head seen while awaiting; 1: only its status line and the start of a field;
                     // 2: never looked at while awaiting (gave up)
-                    if route == 0 { cx.op(&format!("read100 {}", hx(&head))); }
+                    if route == 0 || route == 3 { cx.op(&format!("read100 {}", hx(&head))); }
                     if route == 1 { cx.op(&format!("read100 {}", hx(&head[..(head.len() - 3).min(22)]))); }
                     cx.op("keep100");
                     cx.op("proceed");
@@ -608,6 +645,31 @@ fn finish_exchange(cx: &mut Ctx, stream: &[u8], mut soff: usize, body_len: usize
 }
 
 pub fn c11(cx: &mut Ctx) {
+    // a caller whose waiting loop only tests the returned count keeps looking after the verdict (a refusal
+    // returns 0 like "not enough data"): the refusal re-presented 2 … 9 times while its head trickles in
+    for head in ["HTTP/1.1 403 Forbidden\r\nContent-Length: 0\r\nX-A: 1\r\nX-B: 2\r\n\r\n", "HTTP/1.0 417 E\r\nConnection: close\r\n\r\n"] {
+        for reqv in ["HTTP/1.1", "HTTP/1.0"] {
+            for creq in [false, true] {
+                for times in [2usize, 4, 6, 9] {
+                    cx.case("polls");
+                    let mut hs: Vec<(&str, &[u8])> = vec![("expect", b"100-continue"), ("content-length", b"3")];
+                    if creq { hs.insert(0, ("connection", b"close")); }
+                    cx.rec.new_flow(&format!("POST {} http://a.test/p {}", reqv, super::hdrs(&hs)));
+                    cx.op("proceed"); cx.op("write 4096"); cx.op("proceed");
+                    if cx.rec.state() != "await100" { continue; }
+                    let hb = head.as_bytes();
+                    let first_line = hb.iter().position(|&b| b == b'\n').unwrap() + 1;
+                    for i in 0..times {
+                        let upto = (first_line + 3 + i * (hb.len() - first_line - 3) / times).min(hb.len());
+                        cx.op(&format!("read100 {}", hx(&hb[..upto])));
+                        cx.op("keep100");
+                    }
+                    cx.op("proceed");
+                    finish_exchange(cx, hb, 0, 3);
+                }
+            }
+        }
+    }
     let reasons: [&str; 5] = [" Continue", "", " ", " Go\tOn \u{e9}", " continue please"];
     // the last three: informational statuses other than 100 are refusals too (and have no body)
     let finals: [&str; 9] = ["HTTP/1.1 403 Forbidden\r\n\r\n", "HTTP/1.1 403 Forbidden\r\nContent-Length: 0\r\n\r\n", "HTTP/1.1 200 OK\r\nContent-Length: 2\r\n\r\nhi", "HTTP/1.0 417 Expectation Failed\r\nX: y\r\nContent-Length: 0\r\n\r\n", "HTTP/1.1 302 Found\r\nLocation: /x\r\nContent-Length: 0\r\n\r\n", "HTTP/1.1 204\r\n\r\n",
